@@ -150,26 +150,11 @@ def check(an, rep, tier):
                 rep.add('K-empty', s.where, s.construct, s.status, s.detail,
                         line=getattr(s.node, 'lineno', None),
                         file=s.mod.path if s.mod else None)
-    # --- S-floor: rank floor in both truncated factorisations
+    # --- S-floor: rank floor in both truncated factorisations, decided on
+    # the VALUE of the truncated bond (see rules_formula.check_rank_value)
+    from .. import rules_formula as _RF
     for q in ('svd.matrix_svd', 'svd.matrix_skeleton'):
-        fn = prog.func(q)
-        ok = False
-        for node in ast.walk(fn.node):
-            if isinstance(node, ast.Call) and isinstance(node.func, ast.Name) \
-                    and node.func.id == 'max' and len(node.args) == 2 and \
-                    any(isinstance(a, ast.Constant) and a.value == 1
-                        for a in node.args):
-                par = getattr(node, '_parent', None)
-                if isinstance(par, ast.Assign):
-                    ok = True
-        has_rank = any(isinstance(n_, ast.Call) and
-                       isinstance(n_.func, ast.Name) and n_.func.id == 'min'
-                       for n_ in ast.walk(fn.node))
-        rep.add('S-floor', q, 'rank = max(1, ...)',
-                'ok' if ok else ('violation' if has_rank else 'unknown'),
-                '' if ok else 'the rank floor max(1, .) is gone: a bond of '
-                'size 0 becomes possible for the zero matrix',
-                line=fn.node.lineno, file=fn.module.path)
+        _RF.check_rank_value(an, rep, q, rule='F-rank')
     # --- P-sentinel, on the abstract runs of accuracy() for TT arguments:
     # the quotient of the two stabilised norms is computed only behind a test
     # that excludes a tiny |denominator|, and the degenerate case returns the
